@@ -20,6 +20,12 @@ pub fn build(tier: Tier) -> Check<'static> {
         }));
     }
     {
+        let sp = pp::directive_body_profile();
+        c.parts.push(Part::new("directive-bodies", sp.len(), "macros whose text (or actual argument) holds `undef / `undefineall / `define / conditional chains: the table in force at a later point of use is the one the expansion left behind", move |i, acc| {
+            pp::check_prog(acc, &sp.get(i), or, "directive bodies");
+        }));
+    }
+    {
         let sp = pp::redefine_profile();
         c.parts.push(Part::new("redefinitions", sp.len(), "every ordered pair of definitions of one name (8 formal lists x 2 texts; the first from the source or the caller) followed by a usage: the latest definition decides", move |i, acc| {
             pp::check_prog(acc, &sp.get(i), or, "redefinitions");
